@@ -99,8 +99,8 @@ func (g *G) release(dst *[]int) {
 func (g *G) spawn(fv Value, args []Value) {
 	m := g.m
 	s := m.ensureSched(g)
-	if len(s.gs) >= 8 {
-		m.unsupported("more than 8 goroutines")
+	if len(s.gs) >= 24 {
+		m.unsupported("more than 24 goroutines")
 	}
 	ng := &G{m: m, id: len(s.gs), wake: make(chan struct{})}
 	if f, ok := fv.(*FuncV); ok && f != nil && f.Fn != nil {
